@@ -48,6 +48,15 @@ func (pass *FilterSchemas) buildAllowList(schemas ast.Schemas, entrypoints []Obj
 	}
 
 	visitor := &Visitor{
+		OnConstantRef: func(_ *Visitor, _ *ast.Schema, def ast.Type) (ast.Type, error) {
+			constantRef := def.AsConstantRef()
+			referredObj, found := schemas.LocateObject(constantRef.ReferredPkg, constantRef.ReferredType)
+			if found {
+				rootObjects.Set(referredObj.SelfRef.String(), referredObj)
+			}
+
+			return def, nil
+		},
 		OnRef: func(_ *Visitor, _ *ast.Schema, def ast.Type) (ast.Type, error) {
 			referredObj, found := schemas.LocateObject(def.Ref.ReferredPkg, def.Ref.ReferredType)
 			if !found {
